@@ -95,12 +95,62 @@ VStepMap(e) == LET d == Docs[e.di] IN
        ELSE "ok"
 
 ----------------------------------------------------------------------------
+(* C07: validity predicates.  A node is given as (type name, content tokens). *)
+NodeKids(e) == LET d == Docs[e.di] IN Kids(d, MatchArr(d), 1, Len(d))
+ContentWF(d) == WF(d) /\ Canon(d)
+(* children are structurally fine (needed before content_match_at may be asked) *)
+VCheck(e) == LET d == Docs[e.di] IN
+  IF ~ContentWF(d) THEN "skip:pre"
+  ELSE IF e.res.kind = "raise" /\ ~e.res.valueerror THEN "bad:CheckInternalError"
+  ELSE IF (e.res.kind = "ok") # ValidUnder(e.type, d) THEN
+       (IF e.res.kind = "ok" THEN "bad:CheckAcceptedInvalid" ELSE "bad:CheckRejectedValid")
+  ELSE "ok"
+VValidContent(e) == LET d == Docs[e.di] IN
+  IF ~ContentWF(d) THEN "skip:pre"
+  ELSE IF e.res.kind # "ok" THEN "bad:ValidContentRaised"
+  ELSE IF e.out # ValidKids(e.type, NodeKids(e)) THEN "bad:ValidContent" ELSE "ok"
+VCreateChecked(e) == LET d == Docs[e.di] IN
+  IF ~ContentWF(d) THEN "skip:pre"
+  ELSE IF e.res.kind = "raise" /\ ~e.res.valueerror THEN "bad:CreateCheckedInternalError"
+  ELSE IF (e.res.kind = "ok") # ValidKids(e.type, NodeKids(e)) THEN "bad:CreateChecked" ELSE "ok"
+VCanReplace(e) == LET d == Docs[e.di]
+                      kids == NodeKids(e)
+                      rd == Docs[e.di2]
+                      repl == Kids(rd, MatchArr(rd), 1, Len(rd)) IN
+  IF ~(ContentWF(d) /\ ContentWF(rd) /\ ValidTypeSeq(e.type, TypesOf(kids))) THEN "skip:pre"
+  ELSE IF ~(0 <= e.from /\ e.from <= e.to /\ e.to <= Len(kids) /\ 0 <= e.start /\ e.start <= e.end /\ e.end <= Len(repl))
+  THEN "skip:range"
+  ELSE IF e.res.kind # "ok" THEN "bad:CanReplaceRaised"
+  ELSE IF e.out # CanReplace(e.type, kids, e.from, e.to, repl, e.start, e.end) THEN "bad:CanReplace" ELSE "ok"
+VCanReplaceWith(e) == LET d == Docs[e.di]
+                          kids == NodeKids(e) IN
+  IF ~(ContentWF(d) /\ ValidTypeSeq(e.type, TypesOf(kids))) THEN "skip:pre"
+  ELSE IF ~(0 <= e.from /\ e.from <= e.to /\ e.to <= Len(kids)) THEN "skip:range"
+  ELSE IF e.res.kind # "ok" THEN "bad:CanReplaceWithRaised"
+  ELSE IF e.out # CanReplaceWith(e.type, kids, e.from, e.to, e.ntype, e.marks) THEN "bad:CanReplaceWith" ELSE "ok"
+VCanAppend(e) == LET d == Docs[e.di]
+                     kids == NodeKids(e)
+                     od == Docs[e.di2]
+                     okids == Kids(od, MatchArr(od), 1, Len(od)) IN
+  IF ~(ContentWF(d) /\ ContentWF(od) /\ ValidTypeSeq(e.type, TypesOf(kids))) THEN "skip:pre"
+  ELSE IF e.res.kind # "ok" THEN "bad:CanAppendRaised"
+  ELSE IF Len(okids) = 0 THEN
+       (IF e.out # CompatibleContent(e.type, e.otype) THEN "drift:CanAppendEmpty" ELSE "ok")
+  ELSE IF e.out # CanAppend(e.type, kids, okids) THEN "bad:CanAppend" ELSE "ok"
+
+----------------------------------------------------------------------------
 Verdict(e) ==
   CASE e.ev = "Slice"   -> VSlice(e)
     [] e.ev = "Cut"     -> VCut(e)
     [] e.ev = "Replace" -> VReplace(e)
     [] e.ev = "Apply"   -> VApply(e)
     [] e.ev = "StepMap" -> VStepMap(e)
+    [] e.ev = "Check" -> VCheck(e)
+    [] e.ev = "ValidContent" -> VValidContent(e)
+    [] e.ev = "CreateChecked" -> VCreateChecked(e)
+    [] e.ev = "CanReplace" -> VCanReplace(e)
+    [] e.ev = "CanReplaceWith" -> VCanReplaceWith(e)
+    [] e.ev = "CanAppend" -> VCanAppend(e)
     [] OTHER -> "bad:UnknownEvent"
 
 VARIABLE i
